@@ -50,7 +50,13 @@
 		if label < 0 {
 			panic("unexpected parser state: label start not set")
 		}
-		s.Label.Value = string(data[label:p])
+		if data[label] == '_' && object >= 0 && data[object] == '_' && label > 0 && data[label-1] != ' ' && data[label-1] != '\t' {
+			// A blank node label is the longest match and may hold "_:",
+			// so this text is still part of the object's label.
+			s.Object.Value = string(data[object:p])
+		} else {
+			s.Label.Value = string(data[label:p])
+		}
 	}
 
 	action EndIRI {
